@@ -49,13 +49,14 @@ Record feats : Type := mkFeats {
   fErr : bool;   (* `error` / `never` endings *)
   fExn : bool;   (* throw / try / catch *)
   fList : bool;  (* List(T): literals, cons / first / rest / # / empty? / reverse / = / l.i, for x in l *)
+  fDom : bool;   (* the parametrised domains BoxA(T) / BoxB(T) of category BoxCat(T) with defaults *)
   fMac : bool;   (* macros: type names through MI / BI, DBL(x) / SQR(x) calls *)
   fQual : bool   (* literals rendered `5@MachineInteger` (true) or through the typed helper `mi(5)` (false) *)
 }.
 
 Definition draw_feats (r : rng) : feats :=
   mkFeats (rb r 1 3 4) (rb r 2 2 3) (rb r 3 4 5) (rb r 4 1 2) (rb r 5 1 2)
-          (rb r 6 2 3) (rb r 7 3 4) (rb r 8 2 3) (rb r 9 1 2) (rb r 11 1 4) (rb r 12 1 2) (rb r 15 1 2) (rb r 14 1 2) (rb r 10 1 2).
+          (rb r 6 2 3) (rb r 7 3 4) (rb r 8 2 3) (rb r 9 1 2) (rb r 11 1 4) (rb r 12 1 2) (rb r 15 1 2) (rb r 16 1 3) (rb r 14 1 2) (rb r 10 1 2).
 
 (* ---------------- generation environment ---------------- *)
 Record fsig : Type := mkSig {
@@ -123,8 +124,8 @@ Definition thr_ok (E : genv) (g : fsig) : bool := (negb (gs_thr g) || gInTry E |
    qualified names there (same family of defect as above: `empty?` of a List(String) "did not
    match any possible parameter type ... could be suitable if imported" inside a top-level
    `if`).  Inside functions every shape is generated.                                        *)
-Definition lists_ok (E : genv) : bool := (fList (gFe E) && negb (gTop E && gNoTry E))%bool.
-Definition is_list (t : ty) : bool := match t with TList _ => true | _ => false end.
+Definition lists_ok (E : genv) : bool := ((fList (gFe E) || fDom (gFe E)) && negb (gTop E && gNoTry E))%bool.
+Definition is_list (t : ty) : bool := match t with TList _ | TBox _ _ => true | _ => false end.
 Definition force_noif (E : genv) : genv :=
   mkGenv (gFe E) (gG E) (gF E) (gL E) (gCnt E) (gTop E) (gRet E) (gLoop E) (gPureF E) (gSelf E) true
          (gNoLoop E) (gInTry E) (gThr E) (gNoTry E).
@@ -143,7 +144,8 @@ Definition elem_types (fe : feats) : list bty :=
 
 Definition val_types (fe : feats) : list ty :=
   [TMI; TBool; TMI] ++ (if fInt fe then [TInt; TInt] else []) ++ (if fStr fe then [TStr] else [])
-  ++ (if fList fe then map TList (elem_types fe) else []).
+  ++ (if fList fe then map TList (elem_types fe) else [])
+  ++ (if fDom fe then [TBox DA NMI; TBox DB NMI] ++ (if fInt fe then [TBox DA NInt; TBox DB NInt] else []) else []).
 
 Definition gen_ty (fe : feats) (r : rng) (i : Z) : ty := pick r i (val_types fe) TMI.
 
@@ -201,6 +203,7 @@ Definition gen_lit (t : ty) (r : rng) : expr :=
   | TBool => gen_blit BBool r
   | TStr => gen_blit BStr r
   | TList b => EListLit b (map (fun i => gen_blit b (ch r (Z.of_nat i + 20))) (seq 0 (Z.to_nat (rn r 8 4))))
+  | TBox d n => EPrim (PBox d n) [gen_blit (match n with NMI => BMI | NInt => BInt end) r]
   end.
 
 Definition small_lit (n : nty) (lo span : Z) (r : rng) : expr :=
@@ -258,7 +261,12 @@ Fixpoint gen_expr (sz : nat) (E : genv) (m : mode) (t : ty) (r : rng) {struct sz
     let args2 (t1 t2 : ty) := [gen_expr k E (am 2%nat 0%nat) t1 (ch r 1); gen_expr k E (am 2%nat 1%nat) t2 (ch r 2)] in
     let c := rn r 0 12 in
     if c <? 3 then leaf E m t r
-    else if (c <? 8) && lists_ok E && rb r 30 1 5 then
+    else if (c <? 8) && fDom (gFe E) && negb (gTop E && gNoTry E)
+            && (match t with TMI => true | TInt => true | _ => false end) && rb r 35 1 6 then
+      let n := nty_of t in
+      EPrim (PUnbox (if rb r 36 1 2 then DA else DB) n)
+            [gen_expr k E m (TBox (if rb r 36 1 2 then DA else DB) n) (ch r 1)]
+    else if (c <? 8) && lists_ok E && fList (gFe E) && rb r 30 1 5 then
       (* list observers; first / l.i guarded by empty? (the list expression is pure and is
          written twice)                                                                  *)
       let ba := pick_elem E r 31 in                 (* any element type: for #, empty?, = *)
@@ -272,7 +280,7 @@ Fixpoint gen_expr (sz : nat) (E : genv) (m : mode) (t : ty) (r : rng) {struct sz
                    (EPrim (PLNth bt) [lt; EPrim (PAdd NMI) [EPrim (PMod NMI) [gen_expr k E (sub_mode m) TMI (ch r 4); EPrim (PLLen bt) [lt]];
                                                             ELit (LNum NMI 1)]]) in
       match t with
-      | TList _ => leaf E m t r
+      | TList _ | TBox _ _ => leaf E m t r
       | TBool =>
           let o := rn r 32 3 in
           if o <? 1 then EPrim (PLEmptyQ ba) [la]
@@ -342,6 +350,13 @@ Fixpoint gen_expr (sz : nat) (E : genv) (m : mode) (t : ty) (r : rng) {struct sz
           else if o <? 11 then EAnd (gen_expr k E m TBool (ch r 1)) (gen_expr k E m TBool (ch r 2))
           else EOr (gen_expr k E m TBool (ch r 1)) (gen_expr k E m TBool (ch r 2))
       | TStr => EPrim PCat [gen_expr k E (sub_mode m) TStr (ch r 1); gen_lit TStr (ch r 2)]
+      | TBox d n =>
+          let o := rn r 3 5 in
+          let x := gen_expr k E (sub_mode m) (TBox d n) (ch r 1) in
+          if o <? 1 then EPrim (PBox d n) [gen_expr k E m (ty_of_nty n) (ch r 2)]
+          else if o <? 2 then EPrim (PBump d n) [x]
+          else if o <? 3 then EPrim (PTwice d n) [x]
+          else EPrim (PScale d n) [x; gen_lit (ty_of_nty n) (ch r 2)]
       | TList b =>
           let o := rn r 3 6 in
           let l := gen_expr k E (sub_mode m) (TList b) (ch r 1) in
@@ -411,7 +426,9 @@ with gen_stmts (sz : nat) (E : genv) (vs : option ty) (r : rng) {struct sz} : li
   let asg_g := idx_where asg_ok 0 (gG E) in
   let asg_l := idx_where asg_ok 0 (gL E) in
   let print1 (k : nat) :=
-      let tys := if lists_ok E then val_types (gFe E) else filter (fun t => negb (is_list t)) (val_types (gFe E)) in
+      (* values of the Box domains have no `<<`: they are observed through unbox *)
+      let tys := filter (fun t => (match t with TBox _ _ => false | _ => true end) && (lists_ok E || negb (is_list t)))%bool
+                        (val_types (gFe E)) in
       let t1 := pick r 30 tys TMI in
       let t2 := pick r 31 tys TMI in
       if rb r 32 1 2 then [SPrint [gen_expr k E MAny t1 (ch r 33)]]
@@ -469,7 +486,7 @@ with gen_stmts (sz : nat) (E : genv) (vs : option ty) (r : rng) {struct sz} : li
            (gen_block k (no_top_loop E) None (S (Z.to_nat (rn r 2 2))) (ch r 3))
            (if rb r 4 1 2 then [] else gen_block k (no_top_loop E) None (S (Z.to_nat (rn r 5 2))) (ch r 6))]
     else if c <? 11 then
-      if (lists_ok E && fFor (gFe E) && negb (gNoLoop E) && rb r 7 1 3)%bool then
+      if (lists_ok E && fList (gFe E) && fFor (gFe E) && negb (gNoLoop E) && rb r 7 1 3)%bool then
         let b := pick_elem E r 8 in
         let E' := set_noif (set_loop (set_L E (gL E ++ [(ty_of_bty b, KConst)])) true) in
         [SForIn b (gen_expr k E MAny (TList b) (ch r 1)) (gen_block k E' None (S (Z.to_nat (rn r 5 3))) (ch r 6))]
@@ -508,8 +525,10 @@ with gen_stmts (sz : nat) (E : genv) (vs : option ty) (r : rng) {struct sz} : li
             if fExit (gFe E) then [SExit (gen_expr k (no_top_loop E) MAny TBool (ch r 2)) j]
             else if gNoIf E then [] else [SIf (gen_expr k (no_top_loop E) MAny TBool (ch r 2)) [j] []]
           else if fExit (gFe E) then
-            match assign k with
-            | [s] => [SExit (gen_expr k (no_top_loop E) MAny TBool (ch r 2)) s]
+            (* `c => s` is an `if` in disguise: at the top level s is generated under the
+               restrictions that hold below a top-level `if`                              *)
+            match (if gTop E then gen_stmts k (no_top_loop E) None (ch r 7) else assign k) with
+            | [s] => if is_exit s then [] else [SExit (gen_expr k (no_top_loop E) MAny TBool (ch r 2)) s]
             | _ => []
             end
           else assign k
@@ -608,7 +627,10 @@ Fixpoint gen_items (n : nat) (sz : nat) (fe : feats) (G : list (ty * vkind)) (cn
   match n with
   | O =>
       (* finally print every global, so that the whole final state is observed *)
-      map (fun k => IStmt (SPrint [EGlob k])) (seq 0 (List.length G))
+      map (fun k => IStmt (SPrint [match nth_error G k with
+                                   | Some (TBox d n, _) => EPrim (PUnbox d n) [EGlob k]
+                                   | _ => EGlob k
+                                   end])) (seq 0 (List.length G))
   | S n' =>
       let E := mkGenv fe G fs [] cnt true None false false None false false false false false in
       let c := rn r 0 10 in
